@@ -87,6 +87,62 @@ def ob_roundtrip(c, v, parsed, s):
     return True, ""
 
 
+class _MissingDict(dict):
+    """a dict subclass whose lookups of absent keys do not raise (like collections.defaultdict / Counter)"""
+
+    def __missing__(self, key):
+        return "<<MISSING>>"
+
+
+def remap(d, mk):
+    """the same datum with every dict re-spelled as another kind of mapping: 1 defaultdict(int), 2 OrderedDict,
+    3 dict subclass with __missing__, 4 types.MappingProxyType"""
+    import collections
+    import types
+    if isinstance(d, dict):
+        items = {k: remap(x, mk) for k, x in d.items()}
+        if mk == 1:
+            r = collections.defaultdict(int)
+            r.update(items)
+            return r
+        if mk == 2:
+            return collections.OrderedDict(items)
+        if mk == 3:
+            return _MissingDict(items)
+        if mk == 4:
+            return types.MappingProxyType(items)
+        return items
+    if isinstance(d, list):
+        return [remap(x, mk) for x in d]
+    if isinstance(d, tuple) and len(d) == 2 and isinstance(d[0], str):
+        return (d[0], remap(d[1], mk))
+    return d
+
+
+def ob_roundtrip_mk(c, v, mk):
+    """C01 with records and maps given as other kinds of mappings (absent defaulted fields included)"""
+    if not (1 <= mk <= 4):
+        return True, "out of domain"
+    try:
+        d0 = shape.build(c["ir"], c["names"], v, c["cfg"])
+    except OutOfDomain:
+        return True, "out of domain"
+    d = remap(d0, mk)
+    fo = rt.new_io()
+    try:
+        W.schemaless_writer(fo, c["parsed"], d)
+        rt.rewind(fo)
+        r1 = R.schemaless_reader(fo, c["parsed"])
+    except Exception as e:
+        return False, f"{type(e).__name__}: {e} datum={d!r}"
+    want = codec.normalise(c["ir"], d0, c["names"], rt.f32)
+    if not _same(r1, want):
+        return False, f"read back {r1!r}, expected {want!r} (datum {d!r} given as mapping kind {mk})"
+    if mk in (1, 3) and isinstance(d, dict) and set(d.keys()) != set(d0.keys()):
+        return False, f"the writer added keys to the record it was given: {sorted(d.keys())!r} (was {sorted(d0.keys())!r})"
+    return True, ""
+
+
 def _same(a, b):
     """equality that also distinguishes int from float and bool from int"""
     if isinstance(a, float) or isinstance(b, float):
@@ -176,6 +232,13 @@ def harnesses(tier, seed, which, want=None):
             call = f"{fn}(C, v, {pexpr}, s)"
             hs.append(Harness(f"l2.{which}.{name}{suffix}", "props.l2", ps, call + "[0]", replay_call=call,
                               setup=f"C = case({name!r}, {th})", what=f"{which} over schema {name}"))
+        if which == "rt" and ("defaults" in tags or name in ("rec_flat", "pair_map_long", "union_two_recs")):
+            a = shape.ann(c["ir"], c["names"], c["cfg"])
+            call = "ob_roundtrip_mk(C, v, mk)"
+            sv = shape.samples(c["ir"], c["names"], c["cfg"], seed + 31, n=2)
+            hs.append(Harness(f"l2.rt_mappings.{name}", "props.l2", f"v: {a}, mk: int", call + "[0]", replay_call=call,
+                              setup=f"C = case({name!r}, {th})", what=f"round trip over schema {name} with other mapping kinds",
+                              samples=[(sv[0], 1), (sv[-1], 3)]))
     return hs
 
 
